@@ -485,20 +485,15 @@ def features(nc, cmds):
     return fs
 
 
-CLAUSES = ["exec_in_redirected_command_persists_enclosing", "redirect_failure_with_unwritable_stderr_aborts_line",
-           "function_definition_redirect_error_goes_to_callers_stderr", "closed_std_fd_inherited_by_external"]
+CLAUSES = ["exec_redirection_shadowed_by_enclosing_redirection", "closed_std_fd_inherited_by_external"]
 
 
 def clause_for(nc, cmds, notes):
     """labels emitted by the model say which modelled departure from the reference semantics occurred"""
     if "3" in notes:
         return CLAUSES[0]
-    if "4" in notes:
-        return CLAUSES[1]
-    if "5" in notes:
-        return CLAUSES[2]
     if "1" in notes:
-        return CLAUSES[3]
+        return CLAUSES[1]
     return None
 
 
@@ -672,10 +667,10 @@ def decide_heredoc(ctx, cases):
             ctx.oracle_mismatch += 1
         prop_fails = (bo, brc) != (oo, orc)
         body_txt = "\n".join(lines)
-        if prop_fails and layout == "subst" and ('"' in body_txt or "$'" in body_txt) and bo == "\n" + tail:
+        if prop_fails and layout == "subst" and "$'" in body_txt and bo == "\n" + tail:
             # the word parser looking for the `)` of `$(` trips over a quote character of the body: the
             # substitution is not run at all ("failed to parse word"); not a here-document scanning matter
-            ctx.known_or_violation(HD_CLAUSES[1], "a here-document inside $( ) whose body holds a double quote or $' makes the whole substitution fail",
+            ctx.known_or_violation(HD_CLAUSES[1], "a here-document inside $( ) whose body holds $' (an unterminated ANSI-C quote for the word parser) makes the whole substitution fail",
                                    dict(case, brush=bo, bash=oo))
             continue
         if bo != want:
